@@ -499,7 +499,8 @@ func Check(env *core.Env, rep *core.Report) *core.Result {
 				r.Runs = r.Runs[:cut]
 			} else {
 				r.Mode = "cli-targets"
-				args = []string{"--raw"}
+				// the three ways of naming task targets: `taskctl T..`, `taskctl run T..`, `taskctl run task T..`
+				args = [][]string{{"--raw"}, {"--raw", "run"}, {"--raw", "run", "task"}}[rng.Intn(3)]
 				cut := len(r.Runs)
 				for k := range r.Runs {
 					args = append(args, fmt.Sprintf("r%d", k+1))
